@@ -280,9 +280,13 @@ func configureBasicDownloadAdapter(m *concreteManifest) {
 }
 
 func (a *basicDownloadAdapter) makeRequest(t *Transfer, req *http.Request) (*http.Response, error) {
+	return a.makeRequestAttempt(t, req, maxAuthResubmissions)
+}
+
+func (a *basicDownloadAdapter) makeRequestAttempt(t *Transfer, req *http.Request, left int) (*http.Response, error) {
 	res, err := a.doHTTP(t, req)
-	if errors.IsAuthError(err) && len(req.Header.Get("Authorization")) == 0 {
-		return a.makeRequest(t, req)
+	if left > 0 && errors.IsAuthError(err) && len(req.Header.Get("Authorization")) == 0 {
+		return a.makeRequestAttempt(t, req, left-1)
 	}
 
 	return res, err
